@@ -17,7 +17,7 @@ from symx import Symx, Budget, render, lit_truth
 
 META = {
     'level': 'other',
-    'decides': 'that every state class a JournaledState method writes on a non-fatal path is covered by a journal entry pushed on that path whose revert arm restores the class; reverse iteration and the extent of checkpoint_revert; the set of writers of journaled account fields',
+    'decides': 'that every state class a JournaledState method writes on a non-fatal path is covered by a journal entry pushed on that path whose revert arm restores the class; reverse iteration and the extent of checkpoint_revert; the set of writers of journaled account fields; per journal-entry kind that the revert arm restores the recorded value to the account the entry names; that the spurious-dragon flag handed to journal_revert is `journal spec >= SPURIOUS_DRAGON`',
     'does_not_decide': 'equality of states over arbitrary operation histories; that the amounts restored equal the amounts written (value-level), except where origins coincide',
     'explanation': 'Path enumeration with partial evaluation (symx) of each JournaledState method: per path the written state classes and pushed JournalEntry kinds; revert arms extracted from journal_revert; call-chain checks for iteration order; writer inventory over the workspace.',
 }
